@@ -115,9 +115,11 @@ RawRows == IF "raw" \in Layers
            ELSE {}
 SockHdrs == {"none", "v1tcp4", "v2tcp4", "v1unk", "v2local", "v1badip", "v2badver"}
 SockRows == {[layer |-> l, cfg |-> c, peer |-> p, hdr |-> h, split |-> "sep"] :
-               l \in Layers \ {"raw"}, c \in {x \in SockCfgs : CfgOK(x)}, p \in SockPeers,
-               h \in {x \in SockHdrs : c.mode = "none" => x = "none"}}
-Rows == {r \in RawRows \cup SockRows : r.split \in SplitsOf(r.hdr) /\ (r.cfg.mode = "none" => r.split \in {"whole", "sep"})}
+               l \in Layers \ {"raw"}, c \in {x \in SockCfgs : CfgOK(x)}, p \in SockPeers, h \in SockHdrs}
+Rows == {r \in RawRows \cup SockRows :
+           /\ r.split \in SplitsOf(r.hdr)
+           /\ r.cfg.mode = "none" => r.split \in {"whole", "sep"}
+           /\ (r.layer # "raw" /\ r.cfg.mode = "none") => r.hdr = "none"}
 
 -----------------------------------------------------------------------------
 (* The documented trust relation (Devs = {}) and the one of the code.      *)
